@@ -414,7 +414,9 @@ NOTE_BFS = ("explicit-state breadth-first search over operation histories of the
 def check_C01(prop, tier, only):
     c = cfgs_for(tier)
     jobs = (pool_suite(tier, c, extra="--tries 1", fams=("member", "traits")) + coll_suite(tier, c, extra="--tries 1", fams=("member",))
-            + stack_suite(tier, c, extra="--tries 1") + iter_suite(tier, c) + arena_suite(tier, c[:1]) + static_suite(tier, c))
+            + stack_suite(tier, c, extra="--tries 1") + iter_suite(tier, c) + arena_suite(tier, c[:1]) + static_suite(tier, c)
+            # "... and moves": the same memory-safety monitors with move construct / move assign / swap in the alphabet
+            + iter_suite(tier, c[:1], extra="--moves 2") + pool_suite(tier, c[:1], extra="--moves 2") + stack_suite(tier, c[:1], extra="--moves 2"))
     ej = [J("h_lowlevel", cfg, "--mode dfs", name=f"lowlevel-dfs[{cfg}]") for cfg in c]
     return run_explore_check(prop, tier, jobs, only, enum_jobs=ej, note=NOTE_BFS +
                              "low-level allocators (heap/malloc/new/virtual memory): all sequences up to depth 5/6 over 5 request shapes and releases (stateless DFS); "
@@ -470,7 +472,7 @@ def check_C06(prop, tier, only):
     c = cfgs_for(tier)
     jobs = stack_suite(tier, c, extra="--tries 1") + stack_suite(tier, c[:1], extra="--moves 2")
     for j in jobs:
-        j["own"] = ["M-upstream", "M-noreport"]  # a valid unwind that is reported as invalid did not restore the state; "blocks freed by unwinding are kept for reuse until shrink_to_fit": block/cache accounting of the stack
+        j["own"] = ["M-upstream", "M-noreport", "M-content", "M-inside", "M-disjoint"]  # a valid unwind that is reported as invalid did not restore the state; "blocks freed by unwinding are kept for reuse until shrink_to_fit": block/cache accounting of the stack
     return run_explore_check(prop, tier, jobs, only, note=NOTE_BFS +
                              "memory_stack with mark / unwind(j) for every valid nested j / shrink_to_fit / move; M-unwind: capacity restored, top()==marker, "
                              "markers totally ordered with consistent operators, unwind never touches the upstream, shrink_to_fit empties the cache, and a twin "
@@ -550,6 +552,9 @@ def check_C18(prop, tier, only):
     jobs = check_C18_explore_jobs(tier)
     c = cfgs_for(tier)
     ej = grids.jobs_minblock(tier, strict_next=True) + [J("h_nextcap", cfg, "", name=f"nextcap[{cfg}]") for cfg in c]
+    # "a request above the reported maxima never succeeds": the single-step request sweep on the stack-like allocators
+    # (every size x alignment at the end of a block and right after a growth)
+    ej += [j for j in grids.jobs_sweep(tier) if "/stack" in j["name"] or "/static" in j["name"] or "/iter" in j["name"]]
     return run_explore_check(prop, tier, jobs, only, enum_jobs=ej, note=NOTE_BFS +
                              "next_capacity() sweep: every pool type x node size x EVERY block size of a range: the announced next_capacity() equals the capacity a growth adds; " +
                              "M-counters: capacity_left / pool_capacity_left change by exactly the nodes or bytes an operation takes or returns, next_capacity equals the size of "
